@@ -95,19 +95,12 @@ def run(ctx, tier):
             p = T.path(start, w['node'], avoid=okn)
             # how was the file obtained?  (exclusive creation makes the early write harmless to an existing database)
             n = T.nodes[w['node']]
-            du = ctx.du(n.fn)
-            _, atoms = du.slice_operand(n.fn.term(n.bb)['args'][0])
-            excl = False
-            for a in atoms:
-                if a[0] == 'call' and a[2] in F.by_path:
-                    g = F.by_path[a[2]]
-                    for pi, v in c06.const_args(g, n.fn.term(a[1])).items():
-                        if v and c06._creates_new_under(F, ctx, g, pi):
-                            excl = True
+            excl = bool(c06.created_exclusively(ctx, n.fn, n.fn.term(n.bb)['args'][0], list(n.ctx)))
             how = '' if excl else ' on a file not created exclusively'
-            nth[(w['ev'], w['callee'], how)] = nth.get((w['ev'], w['callee'], how), 0) + 1
-            k = nth[(w['ev'], w['callee'], how)]
-            results.append(bad(rule, '%s | %s=%s before the lock%s%s' % (op.qual, w['ev'], w['callee'], how, '' if k == 1 else ' (#%d)' % k),
+            # (the key names the kind of operation, not the callee: `write_all` rewritten as a loop over `write` is the same finding)
+            nth[(w['ev'], how)] = nth.get((w['ev'], how), 0) + 1
+            k = nth[(w['ev'], how)]
+            results.append(bad(rule, '%s | %s before the lock%s%s' % (op.qual, w['ev'], how, '' if k == 1 else ' (#%d)' % k),
                                'the file %s at %s (creation branch of open) happens before the exclusive file lock is taken: a second process that finds the path existing locks first '
                                'and maps a short or uninitialised file' % ('growth' if w['ev'] == 'G' else 'write', w['loc']), where=w['loc'], path=T.describe_path(p or [])))
         else:
